@@ -144,7 +144,29 @@ class Reader:
         ]
         return data
 
+    @staticmethod
+    def _validate_segments(segments: List[Tuple[int, int, int, int]]) -> None:
+        """
+        the same consistency the writer enforces: every segment is a non-empty, 2*w-aligned range that holds
+        its data, and the segments are pairwise disjoint. a file breaking it was not produced by the writer.
+        """
+        for segment_start, segment_length, _, data_length in segments:
+            if segment_length == 0 or segment_start % 2 != 0 or segment_length % 2 != 0:
+                raise FlipJumpReadFjmException(
+                    f"Bad .fjm file: segment [{segment_start}, {segment_start + segment_length}) must be non-empty "
+                    f"and 2*w aligned."
+                )
+            if data_length > segment_length:
+                raise FlipJumpReadFjmException(
+                    f"Bad .fjm file: segment data-length {data_length} exceeds the segment-length {segment_length}."
+                )
+        sorted_ranges = sorted((start, start + length) for start, length, _, _ in segments)
+        for (_, previous_end), (next_start, _) in zip(sorted_ranges, sorted_ranges[1:]):
+            if next_start < previous_end:
+                raise FlipJumpReadFjmException(f"Bad .fjm file: overlapping segments (at word {next_start}).")
+
     def _init_memory(self, segments: List[Tuple[int, int, int, int]], data: List[int]) -> None:
+        self._validate_segments(segments)
         self.memory = {}
         self.zeros_boundaries = []
 
